@@ -42,21 +42,42 @@ Definition classify (c : slotcfg) (last cur : fh) (t_last : option N) (t_cur : N
   if is_tie_break c last cur t_last t_cur then TieBreak else
   if is_different_chain last cur then DifferentChain else Discard.
 
-(* LIP-0014 as a declarative case list, written independently of the evaluation order. *)
-Definition lip14_case (c : slotcfg) (last cur : fh) (t_last : option N) (t_cur : N) : fc_case :=
-  let extends := (u32 (f_height last + 1) =? f_height cur) && (f_id last =? f_prev cur) in
+(* LIP-0014 as an ORDER-FREE specification: each case with its complete condition (including what must NOT hold), written on the
+   header fields and slot numbers only; [spec_cases] is the list of all cases whose condition holds.  The theorem
+   [spec_cases_singleton] (ForkChoiceProofs.v) shows that exactly one case applies and that it is the one the evaluation order
+   of Executer.process selects, so the order of the tests is immaterial.
+     identical        same block ID
+     valid block      extends the tip: height = tip height + 1 (uint32) and previousBlockID = tip ID
+     double forging   same height, maxHeightPrevoted and previous block, SAME generator
+     tie break        same height, maxHeightPrevoted and previous block, DIFFERENT generator, the tip's slot is earlier than the
+                      block's slot, the tip was not received within its own slot, the block was received within its own slot
+     different chain  (maxHeightPrevoted, height) of the block is lexicographically larger than the tip's
+     discard          none of the above *)
+Definition spec_conditions (c : slotcfg) (last cur : fh) (t_last : option N) (t_cur : N) : list (fc_case * bool) :=
   let same := f_id last =? f_id cur in
+  let extends := (f_height cur =? u32 (f_height last + 1)) && (f_prev cur =? f_id last) in
   let dup := (f_height last =? f_height cur) && (f_mhp last =? f_mhp cur) && (f_prev last =? f_prev cur) in
-  let tie := dup && negb (f_gen last =? f_gen cur)
-             && (slot_number c (f_ts last) <? slot_number c (f_ts cur))
-             && negb (recv_last_in_slot c last t_last) && recv_cur_in_slot c cur t_cur in
+  let samegen := f_gen last =? f_gen cur in
+  let tip_slot_earlier := slot_number c (f_ts last) <? slot_number c (f_ts cur) in
+  let tip_in_slot := match t_last with None => true | Some t => slot_number c (u32 t) =? slot_number c (f_ts last) end in
+  let cur_in_slot := slot_number c (u32 t_cur) =? slot_number c (f_ts cur) in
+  let tie := dup && negb samegen && tip_slot_earlier && negb tip_in_slot && cur_in_slot in
   let better := (f_mhp last <? f_mhp cur) || ((f_mhp last =? f_mhp cur) && (f_height last <? f_height cur)) in
-  if same then Identical
-  else if extends then ValidBlock
-  else if dup && (f_gen last =? f_gen cur) then DoubleForging
-  else if tie then TieBreak
-  else if better then DifferentChain
-  else Discard.
+  let fresh := negb same && negb extends in
+  [ (Identical, same);
+    (ValidBlock, negb same && extends);
+    (DoubleForging, fresh && dup && samegen);
+    (TieBreak, fresh && tie);
+    (DifferentChain, fresh && better);
+    (Discard, fresh && negb (dup && samegen) && negb tie && negb better) ].
+Definition spec_cases (c : slotcfg) (last cur : fh) (t_last : option N) (t_cur : N) : list fc_case :=
+  map fst (filter snd (spec_conditions c last cur t_last t_cur)).
+
+(* API.HeaderHasPriority (version-2 header with fields (hm, hh)) and Executer.Synced (hm = the node's maxHeightPrevoted,
+   hh = tip height): the header/tip has priority over a chain with (height, mhp) iff (mhp, height) is lexicographically smaller *)
+Definition has_priority (hm hh height mhp : N) : bool := (mhp <? hm) || ((mhp =? hm) && (height <? hh)).
+(* version-0 (genesis) header of height hh *)
+Definition has_priority_v0 (hh height mhp : N) : bool := (height <=? hh) && (mhp <=? hh).
 
 (* dispatch in a given order of predicate tests (the order is regenerated from Executer.process, coq/Gen/ForkOrder.v) *)
 Definition holds (c : slotcfg) (last cur : fh) (tl : option N) (tc : N) (k : fc_case) : bool :=
